@@ -559,7 +559,7 @@ func run(c *lib.Ctx) {
 		seen := map[string]bool{}
 		for _, v := range vs {
 			if seen[v.shape] {
-				c.Count("accepted_mutants_not_listed_separately", 1)
+				c.Count("further_accepted_mutants_of_shapes_already_reported_for_the_group", 1)
 				continue
 			}
 			seen[v.shape] = true
